@@ -84,6 +84,20 @@ theorem sink_chunks_full (c : Nat) (hc : 1 ≤ c) (evs : List Ev) :
 example : Sink.run Gen.svsFacts 4 {} [.write [1, 2, 3], .flush, .write [4, 5, 6, 7, 8, 9, 10]]
     = some { buf := [9, 10], out := [[1, 2, 3, 4], [5, 6, 7, 8]] } := by decide
 
+/-- The boundary of the quantifier: with `chunk_bytes = 0` (which the public `StreamOpts` allows)
+the write loop never consumes a non-empty input — in the source it pushes empty chunks for ever; in
+the model the fuel runs out whatever it is.  The property quantifies over chunk sizes ≥ 1 byte, so
+this is reported as a robustness note (`fixes/svs-chunk-bytes-zero.diff`), not as a C09 violation. -/
+theorem chunk_zero_spins (fuel : Nat) (out : List Bytes) (d : UInt8) (ds : Bytes) :
+    writeLoop Gen.svsFacts 0 fuel { buf := [], out := out } (d :: ds) = none := by
+  induction fuel generalizing out with
+  | zero => rfl
+  | succ n ih =>
+    have hF : Gen.svsFacts.sinkFull = .ge := by decide
+    simp only [writeLoop, hF, Cmp.test, List.length_nil, Nat.sub_self, Nat.zero_min, List.take_zero,
+      List.append_nil, Nat.le_refl, decide_true, if_true, List.drop_zero, Sink.sendChunk]
+    exact ih _
+
 /-- The chunk sequence depends only on the bytes written, not on how they were split into writes. -/
 theorem sink_fragmentation_independent (c : Nat) (hc : 1 ≤ c) (evs evs' : List Ev)
     (h : evBytes evs = evBytes evs') :
